@@ -1,7 +1,7 @@
 /-
 Property theorems for RobotWarehouse (R model: the resampled request ids are a draw `d`; every
 theorem holds for ALL draws).  Proofs in Env/RobotWarehouse/{Lemmas,PictureLemmas,MaskLemmas,StepLemmas,
-QueueLemmas,ConsistentLemmas,NoopLemmas,ObsLemmas}.lean.
+QueueLemmas,ConsistentLemmas,NoopLemmas,ObsLemmas,ShelfLemmas,RewardLemmas,ResetLemmas}.lean.
 -/
 import JumanjiModel.Env.RobotWarehouse.Lemmas
 import JumanjiModel.Env.RobotWarehouse.Bounds
@@ -9,6 +9,9 @@ import JumanjiModel.Env.RobotWarehouse.MaskLemmas
 import JumanjiModel.Env.RobotWarehouse.NoopLemmas
 import JumanjiModel.Env.RobotWarehouse.ConsistentLemmas
 import JumanjiModel.Env.RobotWarehouse.ObsLemmas
+import JumanjiModel.Env.RobotWarehouse.ShelfLemmas
+import JumanjiModel.Env.RobotWarehouse.RewardLemmas
+import JumanjiModel.Env.RobotWarehouse.ResetLemmas
 open Jm RobotWarehouse
 
 namespace Props.C04
@@ -129,6 +132,36 @@ example : Consistent Props.C04.rwareWitCfg Props.C04.rwareWit ∧ ¬ legal Props
     (step Props.C04.rwareWitCfg Props.C04.rwareWit [1] []).1.agents = [⟨0, 0, 1, false⟩] ∧
     (step { Props.C04.rwareWitCfg with highways := [[true, false, true]] } Props.C04.rwareWit [1] []).1.agents
       = [⟨0, 0, 1, true⟩] := by decide
+
+/-- C05, the SHELF side of `frozen` (the predicate the driver's `judge` op evaluates): for an action that is
+illegal by the rules, agent `i` is `frozen` — same cell, same direction, and the shelf it stands on (if any)
+is still on that cell after the step.  ALL consistent states, all joint actions of the other agents, all
+draws (valid or not), LAST steps included. -/
+theorem rware_illegal_frozen (cfg : Cfg) (s : State) (hc : Consistent cfg s) (actions draws : List Int)
+    (i a : Nat) (ag : Agent) (hi : s.agents[i]? = some ag) (ha : actions[i]? = some (a : Int)) (ha5 : a < 5)
+    (hill : ¬ legal s i a) :
+    frozen s (step cfg s actions draws).1 i = true :=
+  RobotWarehouse.step_illegal_frozen hc actions draws hi ha ha5 hill
+
+/-- the same for an action masked out by the cached mask (whatever the integer played) -/
+theorem rware_masked_frozen (cfg : Cfg) (s : State) (hc : Consistent cfg s) (actions draws : List Int) (i : Nat)
+    (ag : Agent) (a : Int) (row : List Bool) (hi : s.agents[i]? = some ag) (ha : actions[i]? = some a)
+    (hrow : s.mask[i]? = some row) (hm : Jx.getWC row false a = false) :
+    frozen s (step cfg s actions draws).1 i = true :=
+  RobotWarehouse.step_masked_frozen hc actions draws hi ha hrow hm
+
+/-- more generally: ANY agent that ends the step on its cell facing the same way (no-op, load/unload,
+masked FORWARD, FORWARD against the border) is `frozen`: the shelf under it has not been moved by anybody -/
+theorem rware_frozen_of_agent_unmoved (cfg : Cfg) (s : State) (hc : Consistent cfg s) (actions draws : List Int)
+    (i : Nat) (ag ag' : Agent) (hi : s.agents[i]? = some ag)
+    (hi' : (step cfg s actions draws).1.agents[i]? = some ag') (hx : ag'.x = ag.x) (hy : ag'.y = ag.y)
+    (hd : ag'.dir = ag.dir) :
+    frozen s (step cfg s actions draws).1 i = true :=
+  RobotWarehouse.step_frozen_of_agent hc actions draws hi hi' hx hy hd
+
+/-- on the witness: the illegal FORWARD leaves agent 0 frozen (shelf 0 still under it), although it drops it -/
+example : frozen Props.C04.rwareWit (step Props.C04.rwareWitCfg Props.C04.rwareWit [1] []).1 0 = true ∧
+    holdingsKept Props.C04.rwareWit (step Props.C04.rwareWitCfg Props.C04.rwareWit [1] []).1 0 = false := by decide
 end Props.C05
 
 namespace Props.C07
@@ -181,6 +214,121 @@ example : Consistent Props.C04.rwareWit2Cfg Props.C04.rwareWit2 ∧
     (step Props.C04.rwareWit2Cfg Props.C04.rwareWit2 [1, 2] [1]).1.queue = [1] ∧
     (step Props.C04.rwareWit2Cfg Props.C04.rwareWit2 [1, 2] [1]).1.shelfGrid = [[0, 1, 0], [0, 0, 2]] := by
   decide
+
+/-! #### the shelf side of a step (every step: LAST or not, any joint action, any draw, valid or not) -/
+
+/-- C07: a shelf on whose cell no carrying agent stands keeps its cell through the step -/
+theorem rware_step_free_shelf_stays (cfg : Cfg) (s : State) (a d : List Int) (hc : Consistent cfg s) (k : Nat)
+    (sh : Shelf) (hk : s.shelves[k]? = some sh)
+    (hfree : ∀ ag ∈ s.agents, ag.carrying = true → (ag.x, ag.y) ≠ (sh.x, sh.y)) :
+    ∃ sh', (step cfg s a d).1.shelves[k]? = some sh' ∧ sh'.x = sh.x ∧ sh'.y = sh.y := by
+  have := RobotWarehouse.step_shelf_free hc a d hk hfree
+  obtain ⟨sh', h1, h2⟩ := Option.map_eq_some_iff.1 this
+  exact ⟨sh', h1, (RobotWarehouse.spos_eq h2).1, (RobotWarehouse.spos_eq h2).2⟩
+
+/-- C07: a carried shelf (agent `j` stands on its cell with `is_carrying`) ends the step on the cell on which
+its carrier ends the step — whether the carrier moved, was masked out, turned, or dropped it -/
+theorem rware_step_carried_shelf_follows (cfg : Cfg) (s : State) (a d : List Int) (hc : Consistent cfg s)
+    (k j : Nat) (sh : Shelf) (ag : Agent) (hk : s.shelves[k]? = some sh) (hj : s.agents[j]? = some ag)
+    (hcar : ag.carrying = true) (hx : ag.x = sh.x) (hy : ag.y = sh.y) :
+    ∃ sh' ag', (step cfg s a d).1.shelves[k]? = some sh' ∧ (step cfg s a d).1.agents[j]? = some ag' ∧
+      sh'.x = ag'.x ∧ sh'.y = ag'.y := by
+  have hp : RobotWarehouse.apos ag = RobotWarehouse.spos sh := by
+    unfold RobotWarehouse.apos RobotWarehouse.spos; rw [hx, hy]
+  obtain ⟨sh', ag', h1, h2, h3⟩ := RobotWarehouse.step_shelf_carried hc a d hk hj hcar hp
+  exact ⟨sh', ag', h1, h2, congrArg Prod.fst h3, congrArg Prod.snd h3⟩
+
+/-- the two cases are exhaustive and both occur on the witness step: shelf 0 is carried by agent 0 and
+follows it to `(0, 1)`, shelf 1 is carried by nobody and stays on `(1, 2)` -/
+example : (step Props.C04.rwareWit2Cfg Props.C04.rwareWit2 [1, 2] [1]).1.shelves = [⟨0, 1, 0⟩, ⟨1, 2, 1⟩] ∧
+    (step Props.C04.rwareWit2Cfg Props.C04.rwareWit2 [1, 2] [1]).1.agents = [⟨0, 1, 1, true⟩, ⟨1, 0, 3, false⟩] := by
+  decide
+
+/-! #### "not LAST" weakened to "no collision": the step that reaches the time limit included -/
+
+/-- `is_collision` reports nothing after the joint action `a` (decidable; evaluated on the world after the
+per-agent scan, as `step` does) -/
+def rwareNoCollision (cfg : Cfg) (s : State) (a : List Int) : Prop := RobotWarehouse.NoCollision cfg s a
+
+instance (cfg : Cfg) (s : State) (a : List Int) : Decidable (rwareNoCollision cfg s a) := by
+  unfold rwareNoCollision; infer_instance
+
+/-- a step that is not LAST had no collision -/
+theorem rware_not_last_no_collision (cfg : Cfg) (s : State) (a d : List Int)
+    (hn : (step cfg s a d).2.stepType ≠ .last) : rwareNoCollision cfg s a :=
+  RobotWarehouse.noCollision_of_not_last hn
+
+/-- C07 (strengthening of `rware_step_consistent`): the successor is `Consistent` after every step without
+a collision — in particular after the LAST step of an episode that ends by the time limit -/
+theorem rware_step_consistent_no_collision (cfg : Cfg) (s : State) (a d : List Int) (hc : Consistent cfg s)
+    (hv : rwareValidDraw cfg s a d) (hcol : rwareNoCollision cfg s a) :
+    Consistent cfg (step cfg s a d).1 := RobotWarehouse.step_consistent_nocoll hc a d hv hcol
+
+/-- what `Consistent` says, part by part (the "full invariant"): agents inside the floor on pairwise
+different cells; shelves inside the floor on pairwise different cells (shelves never overlap); both floor
+channels are exactly the pictures of their tables; the request queue consists of pairwise different shelf
+ids; and the shelf a carrying agent carries IS the shelf under it: the id `forward` reads off the shelf
+channel at the agent's cell is the index of the (unique) shelf the table has on that cell -/
+theorem rware_consistent_parts (cfg : Cfg) (s : State) (hc : Consistent cfg s) :
+    (∀ ag ∈ s.agents, inGrid (gRows s.shelfGrid) (gCols s.shelfGrid) ag.x ag.y) ∧
+    (s.agents.map (fun ag => (ag.x, ag.y))).Nodup ∧
+    (∀ sh ∈ s.shelves, inGrid (gRows s.shelfGrid) (gCols s.shelfGrid) sh.x sh.y) ∧
+    (s.shelves.map (fun sh => (sh.x, sh.y))).Nodup ∧
+    (∀ c ∈ allCells (gRows s.shelfGrid) (gCols s.shelfGrid),
+      Jx.Grid.getWC s.agentGrid 0 c.1 c.2 = tableAt (fun a : Agent => (a.x, a.y)) s.agents c ∧
+      Jx.Grid.getWC s.shelfGrid 0 c.1 c.2 = tableAt (fun a : Shelf => (a.x, a.y)) s.shelves c) ∧
+    s.queue.Nodup ∧ (∀ q ∈ s.queue, 0 ≤ q ∧ q < (s.shelves.length : Int)) ∧
+    (∀ ag ∈ s.agents, ag.carrying = true → ∃ (k : Nat) (sh : Shelf), s.shelves[k]? = some sh ∧
+      sh.x = ag.x ∧ sh.y = ag.y ∧ Jx.Grid.getWC s.shelfGrid 0 ag.x ag.y = (k : Int) + 1) := by
+  have hg := (consistent_iff_good cfg s).1 hc
+  obtain ⟨_, _, _, _, _, h6, h7, h8, h9, h10, _, h12, h13, _, _⟩ := hc
+  refine ⟨fun ag h => (h6 ag h).1, of_decide_eq_true h8, fun sh h => (h7 sh h).1, of_decide_eq_true h9, h10,
+    h12, h13, ?_⟩
+  intro ag hag hcar
+  have hin := (h6 ag hag).1
+  have hne := (RobotWarehouse.shelf_cell_ne_zero_iff hg.shShown hg.shBacked hin).2 (hg.carry ag hag hcar)
+  obtain ⟨k, sh, hk, hv, hp⟩ := hg.shBacked ag.x ag.y hin hne
+  exact ⟨k, sh, hk, (RobotWarehouse.spos_eq hp).1, (RobotWarehouse.spos_eq hp).2, hv⟩
+
+/-- C07: after every step without a collision (any in-spec or out-of-spec joint action, any draw in the
+support) shelves do not overlap and the shelf layer of the grid agrees with the shelf table -/
+theorem rware_step_shelves_consistent (cfg : Cfg) (s : State) (a d : List Int) (hc : Consistent cfg s)
+    (hv : rwareValidDraw cfg s a d) (hcol : rwareNoCollision cfg s a) :
+    ((step cfg s a d).1.shelves.map (fun sh => (sh.x, sh.y))).Nodup ∧
+    (∀ c ∈ allCells (gRows (step cfg s a d).1.shelfGrid) (gCols (step cfg s a d).1.shelfGrid),
+      Jx.Grid.getWC (step cfg s a d).1.shelfGrid 0 c.1 c.2 =
+        tableAt (fun a : Shelf => (a.x, a.y)) (step cfg s a d).1.shelves c) ∧
+    gRows (step cfg s a d).1.shelfGrid = gRows s.shelfGrid ∧ gCols (step cfg s a d).1.shelfGrid = gCols s.shelfGrid := by
+  have hc' := RobotWarehouse.step_consistent_nocoll hc a d hv hcol
+  have hp := rware_consistent_parts cfg _ hc'
+  have h1 := (consistent_iff_good cfg s).1 hc
+  have h2 := (consistent_iff_good cfg _).1 hc'
+  have d1 := RobotWarehouse.shaped_dims h1.shH h1.hR
+  have d2 := RobotWarehouse.shaped_dims h2.shH h2.hR
+  exact ⟨hp.2.2.2.1, fun c hcm => (hp.2.2.2.2.1 c hcm).2, d2.1.symm.trans d1.1, d2.2.symm.trans d1.2⟩
+
+/-- the spawn certificate evaluated by the driver on every reset state contains `Consistent` -/
+theorem rware_spawn_ok_consistent (cfg : Cfg) (s : State) (h : SpawnOK cfg s) : Consistent cfg s := h.1
+
+/-- C07 (reset): the state `RandomGenerator.__call__` builds (`genState`: agents with `is_carrying = 0`,
+`is_requested = zeros.at[queue].set(1)`, both channels by `place_entities_on_grid` from a zero grid, mask
+computed, step count 0) from sampled values satisfying the generator certificate — agent cells inside the
+floor and pairwise different, directions in `0..3`, shelf cells inside the floor and pairwise different, queue
+of pairwise different shelf ids — is `Consistent`.  Any floor size, number of agents, shelves, queue length. -/
+theorem rware_reset_consistent (cfg : Cfg) (R C : Nat) (hR : 0 < R) (hC : 0 < C)
+    (hH : Jx.Grid.shaped cfg.highways R C = true)
+    (agentCells : List (Int × Int)) (dirs : List Int) (shelfCells : List (Int × Int)) (queue : List Int)
+    (hlen : agentCells.length ≤ dirs.length)
+    (haIn : ∀ c ∈ agentCells, inGrid R C c.1 c.2) (haNd : agentCells.Nodup)
+    (hdir : ∀ d ∈ dirs, 0 ≤ d ∧ d < 4)
+    (hsIn : ∀ c ∈ shelfCells, inGrid R C c.1 c.2) (hsNd : shelfCells.Nodup)
+    (hqNd : queue.Nodup) (hqR : ∀ q ∈ queue, 0 ≤ q ∧ q < (shelfCells.length : Int)) :
+    Consistent cfg (genState R C agentCells dirs shelfCells queue) :=
+  RobotWarehouse.gen_consistent cfg hR hC hH agentCells dirs shelfCells queue hlen haIn haNd hdir hsIn hsNd hqNd hqR
+
+/-- the hypotheses are satisfiable: a 2×3 floor, two agents, two shelves, one request -/
+example : genState 2 3 [(0, 0), (1, 0)] [1, 0] [(0, 0), (1, 2)] [0] =
+    { Props.C04.rwareWit2 with agents := [⟨0, 0, 1, false⟩, ⟨1, 0, 0, false⟩] } := by decide
 end Props.C07
 
 namespace Props.C11
@@ -262,3 +410,110 @@ theorem robot_warehouse_obs_bounds_cover (cfg : Cfg) (o : Obs) :
 /-- the bound is attained: with `time_limit = 1` the first step emits `step_count = 1` -/
 example : (step { Props.C04.rwareWitCfg with timeLimit := 1 } Props.C04.rwareWit [0] []).2.obs.stepCount = 1 := by decide
 end Props.C01
+
+namespace Props.C08
+/-- every goal `(y, x)` of the configuration is a cell of the floor -/
+def rwareGoalsInside (cfg : Cfg) : Prop := RobotWarehouse.GoalsInside cfg
+instance (cfg : Cfg) : Decidable (rwareGoalsInside cfg) := by unfold rwareGoalsInside; infer_instance
+
+/-- C08, one step.  L2 `deliveries shelves queue goals draws`: go through the goal cells in order; if the
+shelf standing on the goal cell (by the shelf TABLE) is in the request queue it is delivered, and its queue
+slot is refilled with the drawn id.  From a `Consistent` state, for any joint action without collision and any
+draw in the support: the reward of the step is the number of deliveries (positions taken from the successor's
+shelf table, queue from the predecessor), and the successor's queue is the L2 queue. -/
+theorem rware_step_reward_is_deliveries (cfg : Cfg) (s : State) (a d : List Int) (hc : Consistent cfg s)
+    (hg : rwareGoalsInside cfg) (hv : Props.C07.rwareValidDraw cfg s a d) (hcol : Props.C07.rwareNoCollision cfg s a) :
+    (step cfg s a d).2.reward =
+      [(((deliveries (step cfg s a d).1.shelves s.queue cfg.goals d).1.length : Nat) : Rat)] ∧
+    (step cfg s a d).1.queue = (deliveries (step cfg s a d).1.shelves s.queue cfg.goals d).2 :=
+  RobotWarehouse.step_reward_deliveries hc hg a d hv hcol
+
+
+/-- C08, one step, NO hypotheses (any state, any joint action, any draw; the step ended by a collision
+included): the reward is a single number, the count of goals that fire in the scan over the goals, hence a
+natural number not larger than the number of goals -/
+theorem rware_step_reward_fired (cfg : Cfg) (s : State) (a d : List Int) :
+    (step cfg s a d).2.reward = [((firedCount (afterMoves cfg s a).shelfGrid
+      ⟨s.queue, (afterMoves cfg s a).shelves, 0⟩ cfg.goals d : Nat) : Rat)] ∧
+    firedCount (afterMoves cfg s a).shelfGrid ⟨s.queue, (afterMoves cfg s a).shelves, 0⟩ cfg.goals d
+      ≤ cfg.goals.length := RobotWarehouse.step_reward_fired cfg s a d
+
+/-- a 1×3 floor with the goal in the middle: agent 0 (left, facing right) carries the REQUESTED shelf 0, agent 1
+(right, facing left) carries the unrequested shelf 1 -/
+def rwareCollWit : State :=
+  { shelfGrid := [[1, 0, 2]], agentGrid := [[1, 0, 2]], agents := [⟨0, 0, 1, true⟩, ⟨0, 2, 3, true⟩],
+    shelves := [⟨0, 0, 1⟩, ⟨0, 2, 0⟩], queue := [0], stepCount := 0,
+    mask := [[true, true, true, true, true], [true, true, true, true, true]] }
+def rwareCollCfg : Cfg := { timeLimit := 10, sensorRange := 1, highways := [[false, true, false]], goals := [(1, 0)] }
+
+/-- the hypothesis "no collision" of `rware_step_reward_is_deliveries` cannot be dropped: both agents step onto
+the goal cell; the later write of `forward` overwrites the shelf channel there (it shows shelf 1), so the
+requested shelf 0 — which the shelf table also has on the goal cell — is NOT counted: reward 0 on this (LAST)
+step, one delivery by the tables -/
+theorem rware_collision_step_reward_witness :
+    Consistent rwareCollCfg rwareCollWit ∧ rwareGoalsInside rwareCollCfg ∧
+    Props.C07.rwareValidDraw rwareCollCfg rwareCollWit [1, 1] [1] ∧
+    ¬ Props.C07.rwareNoCollision rwareCollCfg rwareCollWit [1, 1] ∧
+    (step rwareCollCfg rwareCollWit [1, 1] [1]).2.stepType = .last ∧
+    (step rwareCollCfg rwareCollWit [1, 1] [1]).1.shelves = [⟨0, 1, 1⟩, ⟨0, 1, 0⟩] ∧
+    (step rwareCollCfg rwareCollWit [1, 1] [1]).1.shelfGrid = [[0, 2, 0]] ∧
+    (deliveries (step rwareCollCfg rwareCollWit [1, 1] [1]).1.shelves rwareCollWit.queue rwareCollCfg.goals [1]).1 = [0] ∧
+    firedCount (afterMoves rwareCollCfg rwareCollWit [1, 1]).shelfGrid
+      ⟨rwareCollWit.queue, (afterMoves rwareCollCfg rwareCollWit [1, 1]).shelves, 0⟩ rwareCollCfg.goals [1] = 0 := by
+  decide
+
+/-- each goal cell delivers at most once per step -/
+theorem rware_deliveries_at_most_goals (P : List Shelf) (gs : List (Int × Int)) (q ds : List Int) :
+    (deliveries P q gs ds).1.length ≤ gs.length := RobotWarehouse.deliveries_length_le P gs q ds
+
+/-- every delivered shelf stands on a goal cell and was requested: its id was in the request queue at the
+beginning of the step, or is one of the ids drawn (requested) during the step -/
+theorem rware_deliveries_sound (P : List Shelf) (gs : List (Int × Int)) (q ds : List Int) (k : Nat)
+    (hl : gs.length ≤ ds.length) (hk : k ∈ (deliveries P q gs ds).1) :
+    (∃ g ∈ gs, shelfIdxAt P (g.2, g.1) = some k) ∧ ((k : Int) ∈ q ∨ (k : Int) ∈ ds) :=
+  RobotWarehouse.deliveries_sound P gs q ds k hl hk
+
+/-- the draws of every step lie in the support and no step has a collision (the play may run on past the
+time limit; a play of an episode satisfies this up to and excluding a step ended by a collision) -/
+def rwareValidRun (cfg : Cfg) (s : State) (ps : List (List Int × List Int)) : Prop := RobotWarehouse.ValidRun cfg s ps
+instance (cfg : Cfg) (s : State) (ps : List (List Int × List Int)) : Decidable (rwareValidRun cfg s ps) := by
+  unfold rwareValidRun; infer_instance
+
+/-- every state of such a run is `Consistent` -/
+theorem rware_run_consistent (cfg : Cfg) (s : State) (ps : List (List Int × List Int)) (hc : Consistent cfg s)
+    (hv : rwareValidRun cfg s ps) : Consistent cfg (runState cfg s ps) := RobotWarehouse.run_consistent ps s hc hv
+
+/-- C08, whole episode (telescoping over ANY sequence of joint actions and draws): the return is the number
+of deliveries of the play (`runDeliveries` = the list of (step, shelf id) pairs, each delivery at a goal cell
+listed once) -/
+theorem rware_episode_return (cfg : Cfg) (s : State) (ps : List (List Int × List Int)) (hc : Consistent cfg s)
+    (hg : rwareGoalsInside cfg) (hv : rwareValidRun cfg s ps) :
+    runReturn cfg s ps = (((runDeliveries cfg s ps 0).length : Nat) : Rat) :=
+  RobotWarehouse.run_return hg ps s 0 hc hv
+
+/-- the hypotheses are satisfiable by a play with a delivery: agent 0 carries the requested shelf 0 onto the
+goal (shelf 1 becomes the request), then turns while agent 1 walks: return 1 = one delivery, (step 0, shelf 0) -/
+example : Consistent Props.C04.rwareWit2Cfg Props.C04.rwareWit2 ∧ rwareGoalsInside Props.C04.rwareWit2Cfg ∧
+    rwareValidRun Props.C04.rwareWit2Cfg Props.C04.rwareWit2 [([1, 2], [1]), ([2, 1], [0])] ∧
+    runDeliveries Props.C04.rwareWit2Cfg Props.C04.rwareWit2 [([1, 2], [1]), ([2, 1], [0])] 0 = [(0, 0)] := by
+  decide
+example : runReturn Props.C04.rwareWit2Cfg Props.C04.rwareWit2 [([1, 2], [1]), ([2, 1], [0])] = 1 := by
+  decide +kernel
+end Props.C08
+
+namespace Props.C10
+/-- C10: the generator's construction from sampled values satisfying the certificate (as in
+`Props.C07.rware_reset_consistent`, plus: every shelf cell is off the highways) passes the spawn certificate
+`SpawnOK` evaluated by the driver: consistent, step count 0, nobody carries, no shelf on a highway -/
+theorem rware_reset_spawn_ok (cfg : Cfg) (R C : Nat) (hR : 0 < R) (hC : 0 < C)
+    (hH : Jx.Grid.shaped cfg.highways R C = true)
+    (agentCells : List (Int × Int)) (dirs : List Int) (shelfCells : List (Int × Int)) (queue : List Int)
+    (hlen : agentCells.length ≤ dirs.length)
+    (haIn : ∀ c ∈ agentCells, inGrid R C c.1 c.2) (haNd : agentCells.Nodup)
+    (hdir : ∀ d ∈ dirs, 0 ≤ d ∧ d < 4)
+    (hsIn : ∀ c ∈ shelfCells, inGrid R C c.1 c.2) (hsNd : shelfCells.Nodup)
+    (hqNd : queue.Nodup) (hqR : ∀ q ∈ queue, 0 ≤ q ∧ q < (shelfCells.length : Int))
+    (hoff : ∀ c ∈ shelfCells, Jx.Grid.getWC cfg.highways true c.1 c.2 = false) :
+    SpawnOK cfg (genState R C agentCells dirs shelfCells queue) :=
+  RobotWarehouse.gen_spawnOK cfg hR hC hH agentCells dirs shelfCells queue hlen haIn haNd hdir hsIn hsNd hqNd hqR hoff
+end Props.C10
